@@ -268,6 +268,10 @@ func c17Run(c *evid.Ctx, cs c17Case) {
 	c.Count("target_reports", 1)
 	c.Distinct("mutation_classes", fmt.Sprintf("%s|%s|%s|restart=%v", cs.Site, cs.Field, cs.Pos, cs.RestartInRange))
 	if target.RangeErr {
+		if target.Known && target.Holds {
+			c.Violation("C17:undetected:range-mismatch-for-held-range:"+cs.Site, fmt.Sprintf("entry %d (%s) mutated %s (%s) inside range %s which %s holds completely, but the report says ErrRangeMismatch instead of verifying it (follower restarted in range: %v)", p, cs.Pos, cs.Field, cs.Site, target.Report.Range, victim.Name, cs.RestartInRange), replay)
+			return
+		}
 		c.Count("target_range_not_held", 1)
 		return
 	}
